@@ -36,6 +36,21 @@ func runClosest(c *Case, mode string, k int, maxd float64) result {
 	qTxt := renderFasta(qn, qs, randLayout(lr))
 	tTxt := renderFasta(tn, ts, randLayout(lr))
 	threads := atoi(c.Get("threads"))
+	if isCLI(c) && (mode == "plain" || k > 0 || maxd != -1) {
+		args := []string{"closest", "--query", "{dir}/q.fa", "--target", "{dir}/t.fa", "-m", c.Get("measure"), "-t", fmt.Sprint(threads)}
+		if mode != "plain" {
+			if k > 0 {
+				args = append(args, "-n", fmt.Sprint(k))
+			}
+			if maxd != -1 {
+				args = append(args, "-d", strconv.FormatFloat(maxd, 'f', -1, 64))
+			}
+			if mode == "table" {
+				args = append(args, "--table")
+			}
+		}
+		return viaCLI(map[string]string{"q.fa": qTxt, "t.fa": tTxt}, "", args, nil)
+	}
 	return safeRun(30*time.Second, func() (string, error) {
 		var out bytes.Buffer
 		var err error
@@ -145,6 +160,7 @@ func c06Gen(r *RNG, id string, prop string) *Case {
 		}
 	}
 	c.NonTrv = len(c.Tags) > 0
+	maybeCLI(r, c, 6)
 	return c
 }
 
